@@ -113,7 +113,18 @@ def def_mpf_constant(fixed):
     """
     def f(prec, rnd=round_fast):
         wp = prec + 20
-        v = fixed(wp)
+        while 1:
+            v = fixed(wp)
+            # The last few bits of v are uncertain. If the bits that are
+            # rounded away are that close to a rounding boundary, they
+            # cannot decide the direction: use more of them.
+            n = bitcount(v) - prec
+            if n > 6:
+                r = v & ((MPZ_ONE << n) - 1)
+                r = min(r, abs(r - (MPZ_ONE << (n-1))), (MPZ_ONE << n) - r)
+                if r > 16:
+                    break
+            wp += 32
         if rnd in (round_up, round_ceiling):
             v += 1
         return normalize(0, v, -wp, bitcount(v), prec, rnd)
